@@ -46,8 +46,8 @@ Definition class_all_hides (pr : project) : bool :=
              end) pr.
 
 (* class 4, re-exports the resolver does not follow the way CPython binds them: a from-import in an
-   __init__ that is type-checking-only or stands in a def/class, takes the name from outside the
-   package, names a module that does not exist, binds a submodule of a subpackage, or aliases a
+   __init__ that is type-checking-only or stands in a def/class, takes the name by an absolute import from outside the
+   package or by "from .. import x", names a module that does not exist, binds a submodule of a subpackage, or aliases a
    submodule ("from . import x as y") *)
 Definition reexport_regular (pr : project) (init : pymodule) (s : import_stmt) : bool :=
   match i_form s with
@@ -59,7 +59,11 @@ Definition reexport_regular (pr : project) (init : pymodule) (s : import_stmt) :
           negb (i_tc s) && binds_at_module_level (i_pos s) &&
           (if path_eqb t (m_path init)
            then forallb (fun x => N.eqb (in_orig x) (in_bound x)) ns
-           else strict_prefixb (m_path init) t && is_module pr t &&
+           else match f with
+                | ImportFrom _ _ => strict_prefixb (m_path init) t      (* absolute: inside the package only *)
+                | ImportRel _ [] _ => false                             (* "from .. import x": not followed *)
+                | _ => true
+                end && is_module pr t &&
                 forallb (fun x => negb (is_module pr (t ++ [in_orig x]))) ns)
       end
   end.
